@@ -125,16 +125,32 @@ func checkC12(w *Worker) {
 	for i, b := range c12Blocks {
 		blockText[i] = renderLog(absLog{b})
 	}
+	// pick: which book, which block universe and which history (sequence of block indices) an execution is about
+	type c12Pick struct {
+		bi        int // key of the book for the cache
+		bookText  string
+		blockText []string
+		hist      []int
+		exactSums bool // printed numbers are exact: period reports may be added up as decimals
+	}
+	var pick func(x *Exec, depth int) c12Pick
+	pickBlocks := func(x *Exec, depth int) c12Pick {
+		bi := x.Choose(len(c07Books), "input:book")
+		k := 1 + x.Choose(depth, "input:length")
+		hist := make([]int, k)
+		for i := range hist {
+			hist[i] = x.Choose(len(c12Blocks), "event:append-block")
+		}
+		return c12Pick{bi, renderBook(c07Books[bi]), blockText, hist, true}
+	}
+	pick = pickBlocks
 	body := func(fresh bool, depth int) func(x *Exec) {
 		cache := map[string]AppRun{}
+		pick := pick
 		return func(x *Exec) {
-			bi := x.Choose(len(c07Books), "input:book")
-			k := 1 + x.Choose(depth, "input:length")
-			hist := make([]int, k)
-			for i := range hist {
-				hist[i] = x.Choose(len(c12Blocks), "event:append-block")
-			}
-			bookText := renderBook(c07Books[bi])
+			pk := pick(x, depth)
+			bi, bookText, blockText, hist := pk.bi, pk.bookText, pk.blockText, pk.hist
+			k := len(hist)
 			text := func(h []int) string {
 				s := ""
 				for _, b := range h {
@@ -186,6 +202,9 @@ func checkC12(w *Worker) {
 			}
 			canon := ""
 			for _, cmd := range c12Period {
+				if !pk.exactSums {
+					break // (amounts that are not multiples of 1/100: sums of rounded numbers are not rounded sums)
+				}
 				whole, left, right := run(cmd, hist), run(cmd, H), run(cmd, b)
 				name := strings.Join(cmd, " ")
 				if whole.Failed || left.Failed || right.Failed {
@@ -227,6 +246,34 @@ func checkC12(w *Worker) {
 	}
 	// the same edges with every run in a process of its own (the in-process driver would carry whatever one run keeps
 	// in package-level state over to the next, which is exactly what a separate invocation of the tool cannot do)
+	// every special scenario (harness/specials.go): the days of its log as blocks, in file order and reversed, every
+	// edge "first k days -> first k+1 days"
+	specials := specialScenarios()
+	pick = func(x *Exec, depth int) c12Pick {
+		si := x.Choose(len(specials), "input:scenario")
+		sc := specials[si]
+		rev := x.Choose(2, "input:reversed") == 1
+		var texts []string
+		for _, d := range sc.Log {
+			texts = append(texts, renderLog(absLog{d}))
+		}
+		if rev {
+			for l, r := 0, len(texts)-1; l < r; l, r = l+1, r-1 {
+				texts[l], texts[r] = texts[r], texts[l]
+			}
+		}
+		if len(texts) == 0 {
+			texts = []string{""}
+		}
+		k := 1 + x.Choose(len(texts), "input:length")
+		hist := make([]int, k)
+		for i := range hist {
+			hist[i] = i
+		}
+		return c12Pick{1000 + si*2 + btoi(rev), renderBook(sc.Book), texts, hist, sc.Exact}
+	}
+	w.Explore("special-scenarios", ExploreOpts{ShardDepth: 2}, body(false, 0))
+	pick = pickBlocks
 	w.Explore("append-histories-one-process-per-run", ExploreOpts{ShardDepth: 3}, body(true, freshDepth))
 	w.Explore("append-histories", ExploreOpts{ShardDepth: 4}, body(false, depth))
 }
